@@ -18,14 +18,22 @@ CHECKS = {
             "Exploration: obtainability invariant asserted at try_new/TryFrom/FromStr/Default/Deserialize/Arbitrary with NaN payloads, infinities and overflow spellings offered; order axioms checked on all pairs and triples of up to 96 obtainable values per declaration; thorough sweeps all 2^32 f32 patterns.", "5/C12"),
     "C13": ("differential runtime monitor: views, Display, comparisons and hashes of the newtype vs the inner value", "rt",
             "Exploration over all obtainable values and ~2k-50k pairs per declaration (equal, adjacent, equal only after sanitisation, random); map lookups through the borrowed form included.", "5/C13"),
+    "C02": ("reference-model monitor with Python-denoted bounds over a spelling/layout corpus (accepted declarations are executed; rejected ones are fine)", "c02",
+            "Exploration: ~590 (quick) / ~2600 (thorough) declarations, one per syntactic form x family x validator kind, each accepted one driven through try_new on inputs around the denoted bound, its negation, half/double and +-10; the oracle's bound values come from Python arithmetic, never from the macro's parse.", "5/C02"),
     "C04": ("differential runtime monitor: Deserialize of the newtype vs a serde-derived reference newtype parsed from the same bytes, then the constructor; probing Deserializer", "rt",
             "Exploration: ~150-200 serde declarations x 3 formats x 6 container positions x (serde-produced encodings of boundary/valid/invalid values, ~60 hostile documents per format, byte-level mutations). The critical direction (Ok where the reference says none = guard bypass) and the converse are both checked.", "5/C04"),
+    "C05": ("compile-verdict monitor over a bypass-attack catalogue with positive-control twins + offline rule checker over an expansion event log (nightly -Zunpretty=expanded parsed with syn)", "verdict+audit",
+            "Exploration: ~470 attack programs (each with a control twin that must compile) against 11 victim declarations x 2 visibilities, plus structural rules over ~190 audited expansion modules. A catalogue samples 'all client programs'; the audit covers every function present in the audited expansions.", "5/C05"),
+    "C08": ("compile-verdict monitor: rustc's verdict per generated declaration (span attribution, fixpoint to a clean build) vs an independent 3-valued reference predicate; generated unit tests observed via cargo test", "verdict",
+            "Exploration: ~1900 declarations over two crate-feature sets (systematic matrix + one case per rejection rule with well-formed neighbours + hostile names + generics x derives + layouts + seeded random tail) and 89 expression-valued bound/default cases whose generated tests must fail exactly when contradictory.", "5/C08"),
     "C09": ("reference-model monitor on every value produced by the derived Arbitrary under catch_unwind + stall watchdog (bounded-progress restatement of termination)", "rt",
             "Exploration: all byte inputs of length <= 2, boundary patterns up to 64 bytes, encodings of special floats / case-expanding code points, random inputs, over ~550 (quick) declarations with non-empty valid sets; thorough adds all 2^32 4-byte inputs for 8 f32 generators. Known generator defects are listed in known_findings.json by cause class verified on the witness.", "5/C09"),
     "C10": ("recording-Serializer trace check + byte-identity vs inner encoding + conditioned round-trip monitor", "rt",
             "Exploration over every obtainable value of the serde corpus document domain in JSON, RON and MessagePack; the trace check is format independent.", "5/C10"),
     "C14": ("exhaustive runtime enumeration: produced set of the derived Arbitrary over all <=2-byte inputs compared with the valid set", "rt",
             "Per declaration exhaustive (the generator consumes at most 2 bytes for ranges of <= 2^16 values, so [] plus all 1- and 2-byte inputs cover its whole behaviour); declarations are sampled from the grammar with a systematic core (range sizes 1,2,255,256,257,65536; every operator class in expression bounds).", "5/C14"),
+    "C15": ("compile-verdict monitor on a generated #![no_std] library crate (nutype default-features = false, +serde, +arbitrary) with std-using control declarations", "verdict",
+            "Exploration: ~850 (quick) declarations: families x guard variants x each derivable trait singly and all together x default/const_fn/generics must be in the clean build; three std-using controls must be rejected. Host target only.", "5/C15"),
     "C16": ("message-reading monitor: the relation stated in the error text is evaluated at the bound and its neighbours and compared with try_new", "rt",
             "Exploration over every (family x bound kind) with bounds of both signs/magnitudes; a closed phrase dictionary maps text to a relation; unknown wording is inconclusive, not a violation.", "5/C16"),
 }
@@ -60,6 +68,12 @@ def main():
         "hooks": {"guard": "nutype_verif", "enable": "none needed: no source hooks; every property is observed at the public boundary of generated code, in rustc diagnostics, or in the nightly expansion dump (guard name reserved)",
                   "baseline_off_cmd": "cd /repo && cargo test --workspace --no-fail-fast --offline", "source_commits": [], "add_only": True},
         "engines": [
+            {"name": "verdict", "path": "gen/verdict.py (+ gen/corpus_verdict.py, corpus_c05.py, corpus_nostd.py)", "serves_properties": ["C05", "C08", "C15"],
+             "kind_free_text": "compile-verdict monitor: many cases per crate, cargo check --message-format=json, errors attributed to cases by span line, fixpoint rebuild until clean"},
+            {"name": "audit", "path": "auditor/ (Rust, syn) + gen/audit.py", "serves_properties": ["C05"],
+             "kind_free_text": "expansion auditor: nightly -Zunpretty=expanded -> syn -> JSON event log -> offline structural rules"},
+            {"name": "c02", "path": "gen/corpus_spelling.py (workspace work/c02-<tier>) + rt/", "serves_properties": ["C02"],
+             "kind_free_text": "spelling corpus compiled like the rt workspace; rejected declarations are recorded, accepted ones run under the C01/C03 monitors with Python-denoted bounds"},
             {"name": "rt", "path": "gen/ + rt/ (workspace work/rt-<tier>-s<seed>)", "serves_properties": ["C01", "C03", "C04", "C06", "C07", "C09", "C10", "C11", "C12", "C13", "C14", "C16"],
              "kind_free_text": "generated harness crates (one module per #[nutype] declaration + object-safe glue) linked with the nvrt monitor library; 16 monitor processes"},
         ],
